@@ -275,6 +275,44 @@ def main(ck, tier, w):
                     ck.violation('%s: block at height %d replaced by one that builds on a stale block of height %d known to the index (%s): %s' % (
                         coin, hx, hx - 1, 'with data' if stale_has_data else 'header only', '; '.join(probs)), {'coin': coin, 'height': hx, 'observed': r.brief(), 'tags': []})
 
+    # merged-mined blocks are verified like any other: a changed transaction byte / merkle field in a block that carries an AuxPoW
+    # section is rejected at that height
+    from lib import wirerep
+    for coin in ('namecoin', 'dogecoin'):
+        r0 = random.Random('%d-auxverify-%s' % (seed, coin))
+        ablocks, prev = [], b'\0' * 32
+        for h in range(5):
+            rec = {'coin': coin, 'block': {'ver': 1 if h >= 1 else 0, 'aux': {'cb': {'seg': h % 2 == 0, 'ins': ['s'], 'outs': ['s'], 'wit': [['s']]}, 'b1': h, 'b2': 1} if h >= 1 else {'cb': [], 'b1': -1, 'b2': -1},
+                                           'txs': [{'seg': False, 'ins': ['s'], 'outs': ['s', 's'], 'wit': [[]]} for _ in range(3)]}}
+            b = wirerep.mk_block(rec, r0, prev=prev, t=1400000000 + h, sizes=wirerep.CHAIN_SIZES[0])
+            ablocks.append(b)
+            prev = b['hash']
+        good = write_dir(w, ablocks, coin)
+        rg = run.run_parser(good.path, 'csvdump', dump=w.mk('out'), coin=coin, start=1, verify=True)      # (csvdump: the random values would overflow a sum)
+        ck.evals()
+        if rg.rc != 0:
+            ck.violation('%s: consistent chain of AuxPoW blocks rejected under --verify: %s' % (coin, rg.stderr[-200:]), {'coin': coin, 'observed': rg.brief(), 'tags': []})
+            continue
+        for hx in (2, 4):
+            for what in ('tx', 'merkle'):
+                stored = [b['raw'] for b in ablocks]
+                raw = bytearray(stored[hx])
+                if what == 'merkle':
+                    raw[36 + r0.randrange(32)] ^= 1 << r0.randrange(8)
+                else:
+                    tail = btc.ser_tx(ablocks[hx]['txs'][-1])
+                    pos = bytes(raw).rfind(tail)
+                    raw[pos + 4 + 1 + r0.randrange(32)] ^= 1 << r0.randrange(8)       # inside the prev-txid of the last transaction's input
+                stored[hx] = bytes(raw)
+                d2 = write_dir(w, ablocks, coin, stored)
+                r2 = run.run_parser(d2.path, 'csvdump', dump=w.mk('out'), coin=coin, start=1, verify=True)
+                ck.evals()
+                ck.distinct(('auxverify', coin, hx, what))
+                probs = judge(r2, False, hx, 'csvdump')
+                if probs:
+                    ck.violation('%s: %s altered in the AuxPoW block at height %d: %s' % (coin, 'transaction bytes' if what == 'tx' else 'merkle-root field', hx, '; '.join(probs)),
+                                 {'coin': coin, 'height': hx, 'observed': r2.brief(), 'tags': []})
+
     # wrong-coin genesis: the genesis block of another coin at height 0 must be rejected
     for coin, other in (('bitcoin', 'testnet3'), ('litecoin', 'dogecoin'), ('namecoin', 'bitcoin'), ('noteblockchain', 'litecoin')):
         r0 = random.Random('%d-g-%s' % (seed, coin))
